@@ -617,6 +617,11 @@ impl TypeCheckerState {
     /// Gets all of the values that are registered with the unifier state.
     #[must_use]
     pub fn values(&self) -> Vec<&TCBoxedVal> {
+        #[cfg(smlxl_storage_layout_extractor_verif)]
+        if crate::verif::ordering_on() {
+            let pairs: Vec<(&TypeVariable, &TCBoxedVal)> = self.expressions.iter().collect();
+            return crate::verif::order("tc.values", pairs, |(k, _)| **k).into_iter().map(|(_, v)| v).collect();
+        }
         self.expressions.values().collect()
     }
 
@@ -624,6 +629,11 @@ impl TypeCheckerState {
     /// state.
     #[must_use]
     pub fn variables(&self) -> Vec<TypeVariable> {
+        #[cfg(smlxl_storage_layout_extractor_verif)]
+        if crate::verif::ordering_on() {
+            let vars: Vec<TypeVariable> = self.inferences.keys().copied().collect();
+            return crate::verif::order("tc.variables", vars, |v| *v);
+        }
         self.inferences.keys().copied().collect()
     }
 
